@@ -12,6 +12,8 @@ CONSTANTS
   GuardedConn = TRUE
   PerCycleWG = TRUE
   SubscribeMayFail = TRUE
+  StartMayFail = FALSE
+  ResetOnFailedStart = TRUE
   Script <- TraceScript
 CONSTRAINT HighWater
 INVARIANTS NotAccepted MutualExclusion FifoPrefix AtMostOnce NoPanic NoLateStart
